@@ -1,6 +1,7 @@
 package verifsimrt
 
 import (
+	"context"
 	"fmt"
 	"os"
 	"reflect"
@@ -99,6 +100,7 @@ func resetTasks() {
 	nextSw = 0
 	timers = nil
 	timerSeq, taskSeq, switches = 0, 0, 0
+	conds = nil
 	wgCount = map[*sync.WaitGroup]int{}
 	onceState = map[*sync.Once]int{}
 }
@@ -764,3 +766,155 @@ func ZeroOf[T any](ch <-chan T) (z T) { return }
 // SendVal gives the value of a send clause the channel's element type (it is evaluated once,
 // when the select is entered).
 func SendVal[T any](ch chan<- T, v T) T { return v }
+
+// ---------------------------------------------------------------- sync.Cond
+
+type condState struct {
+	waiters []*task
+}
+
+var conds map[*sync.Cond]*condState
+
+func condOf(c *sync.Cond) *condState {
+	if conds == nil {
+		conds = map[*sync.Cond]*condState{}
+	}
+	s := conds[c]
+	if s == nil {
+		s = &condState{}
+		conds[c] = s
+	}
+	return s
+}
+
+func lockLocker(l sync.Locker) {
+	switch m := l.(type) {
+	case *sync.Mutex:
+		MutexLock(m)
+	case *sync.RWMutex:
+		RWLock(m)
+	default:
+		l.Lock() // a Locker of the program's own: its Lock method is instrumented code
+	}
+}
+
+// CondWait is c.Wait(): unlock, wait to be signalled (first come, first served), lock again.
+func CondWait(c *sync.Cond) {
+	activity++
+	s := condOf(c)
+	me := cur
+	s.waiters = append(s.waiters, me)
+	c.L.Unlock()
+	epoch++
+	for {
+		waiting := false
+		for _, w := range s.waiters {
+			if w == me {
+				waiting = true
+			}
+		}
+		if !waiting {
+			break
+		}
+		YieldBlocked()
+	}
+	lockLocker(c.L)
+}
+
+func CondSignal(c *sync.Cond) {
+	activity++
+	s := condOf(c)
+	if len(s.waiters) > 0 {
+		s.waiters = s.waiters[1:]
+		epoch++
+	}
+}
+
+func CondBroadcast(c *sync.Cond) {
+	activity++
+	s := condOf(c)
+	if len(s.waiters) > 0 {
+		s.waiters = nil
+		epoch++
+	}
+}
+
+// ---------------------------------------------------------------- context deadlines
+
+type deadlineCtx struct {
+	context.Context
+	deadline time.Time
+}
+
+func (c deadlineCtx) Deadline() (time.Time, bool) { return c.deadline, true }
+func (c deadlineCtx) Err() error {
+	if e := c.Context.Err(); e != nil {
+		if context.Cause(c.Context) == context.DeadlineExceeded {
+			return context.DeadlineExceeded
+		}
+		return e
+	}
+	return nil
+}
+
+// CtxWithTimeout / CtxWithDeadline stand in for context.WithTimeout / WithDeadline: the expiry
+// is a simulated timer. (context.WithCancel needs no stand-in: it starts no goroutine and no timer.)
+func CtxWithTimeout(parent context.Context, d time.Duration) (context.Context, context.CancelFunc) {
+	inner, cancel := context.WithCancelCause(parent)
+	if pd, ok := parent.Deadline(); ok && pd.Before(time.UnixMilli(simMs()).Add(d)) {
+		// the parent expires first: it will cancel us
+		return deadlineCtx{inner, pd}, func() { cancel(context.Canceled) }
+	}
+	tm := addTimer(d, 0, nil, func() { cancel(context.DeadlineExceeded); epoch++ })
+	return deadlineCtx{inner, time.UnixMilli(simMs()).Add(d).UTC()}, func() {
+		tm.live = false
+		cancel(context.Canceled)
+		epoch++
+	}
+}
+
+func CtxWithDeadline(parent context.Context, t time.Time) (context.Context, context.CancelFunc) {
+	return CtxWithTimeout(parent, t.Sub(time.UnixMilli(simMs())))
+}
+
+// CtxAfterFunc stands in for context.AfterFunc: f runs as a task once ctx is done.
+func CtxAfterFunc(ctx context.Context, f func()) (stop func() bool) {
+	stopped, started := false, false
+	Go(func() {
+		for {
+			if stopped {
+				return
+			}
+			if _, _, got := TryRecv(ctx.Done()); got {
+				break
+			}
+			YieldBlocked()
+		}
+		started = true
+		f()
+	})
+	return func() bool {
+		if started || stopped {
+			return false
+		}
+		stopped = true
+		epoch++
+		return true
+	}
+}
+
+// ---------------------------------------------------------------- sync.Map
+
+// SyncMapRange is (*sync.Map).Range with the visiting order decided by the schedule.
+func SyncMapRange(m *sync.Map, f func(key, value any) bool) {
+	tmp := map[string][2]any{}
+	m.Range(func(k, v any) bool {
+		tmp[fmt.Sprintf("%T:%v", k, k)] = [2]any{k, v}
+		return true
+	})
+	for _, p := range Pairs("sync.Map.Range", tmp) {
+		if !f(p.V[0], p.V[1]) {
+			return
+		}
+	}
+}
